@@ -39,7 +39,10 @@ func c06RealService(service string, as c06Assign) *graphql.Schema {
 	other := s.Object("Other", Other{}, schemabuilder.FetchObjectFromKeys(func(args struct{ Keys []*Other }) []*Other { return args.Keys }))
 	other.Key("id")
 	q := s.Query()
-	s.Mutation()
+	mut := s.Mutation()
+	if as.has("Mutation.touch", service) {
+		mut.FieldFunc("touch", func() *Item { return nil })
+	}
 	if as.has("Item.a", service) {
 		item.FieldFunc("a", func(it *Item) int64 { return 0 })
 	}
